@@ -129,6 +129,10 @@ def layouts(tier):
                                                            sg('MID', 'TOP', -108000 + 600, -540000 + 600, 11, 11, 120, 120, kind, 1),
                                                            sg('FINE', 'MID', -108000 + 840, -540000 + 960, 9, 7, 30, 30, kind, 2),
                                                            sg('FAR', 'NONE', 162000, 270000, 4, 4, 300, 300, kind, 3)]})
+    # sub-grids that END AT THE 180-DEGREE MERIDIAN (one on each side): the shifted longitude of a point next to it lies beyond
+    # +-180 degrees - the transformation adds / subtracts the shift, nothing else
+    out.append({'id': 'antimeridian', 'subs': [sg('E180', 'NONE', -72000, -648000, 5, 6, 600, 600, 'linear', 0),
+                                                sg('W180', 'NONE', -72000, 648000 - 5 * 600, 5, 6, 600, 600, 'linear', 1)]})
     # the three nested levels in EVERY file order (a file need not list a parent before its children, nor coarse before fine)
     import itertools
     lv = {'T': sg('TOP', 'NONE', -108000, -540000, 6, 7, 600, 600, 'linear', 0), 'M': sg('MID', 'TOP', -108000 + 600, -540000 + 600, 11, 11, 120, 120, 'linear', 1),
@@ -156,6 +160,20 @@ def layout_by_id(lid, tier='thorough'):
     return _LAY[lid]
 
 
+HEADERS = [
+    {'system_f': 'GDA94', 'system_t': 'GDA2020', 'version': 'TESTv1', 'axes': (6378137.0, 6356752.314, 6378137.0, 6356752.314)},
+    # the axes as doubles carry them (full precision), two different ellipsoids, other system names / version texts
+    {'system_f': 'AGD66', 'system_t': 'GDA94', 'version': '1.0.0.0', 'axes': (6378160.0, 6356774.719195306, 6378137.0, 6356752.314140356)},
+    {'system_f': 'WGS84', 'system_t': 'GRS80', 'version': 'v2 b', 'axes': (6378137.0, 6356752.314245179, 6378137.0, 6356752.314140356)},
+    {'system_f': 'NAD27', 'system_t': 'NAD83', 'version': 'NTv2.0', 'axes': (6378206.4, 6356583.8, 6378137.0, 6356752.31414)},
+]
+
+
+def header_of(lay):
+    """every layout carries one of the header variants (by position in the layout list: all variants meet all layout families)"""
+    return HEADERS[sum(map(ord, lay['id'])) % len(HEADERS)]
+
+
 def materialise(lay, tag):
     subs = []
     for s in lay['subs']:
@@ -168,7 +186,9 @@ def materialise(lay, tag):
     # deliberately the SAME path for every file a worker process handles: a cache keyed on the file name that survives a
     # replaced file shows up as values of the previous file
     path = os.path.join(SCRATCH, 'c17_%d_%s.gsb' % (os.getpid(), tag))
-    arrays = ntv2gen.write_gsb(path, subs, pad=lay.get('pad', b'\x00' * 4))
+    hd = header_of(lay)
+    arrays = ntv2gen.write_gsb(path, subs, pad=lay.get('pad', b'\x00' * 4), system_f=hd['system_f'], system_t=hd['system_t'], version=hd['version'],
+                               axes=hd['axes'])
     chk = ntv2gen.read_gsb_independent(path)
     if chk['num_file'] != len(subs) or chk['end'] != b'END':
         raise HarnessError('generated NTv2 file failed the independent reader')
@@ -240,8 +260,11 @@ def ev(case, rec):
             return
         # ---- metadata
         bad_meta = []
-        if (grid.num_file, grid.gs_type, grid.system_f, grid.system_t, grid.num_orec, grid.num_srec) != (len(subs), 'SECONDS', 'GDA94', 'GDA2020', 11, 11):
-            bad_meta.append(('header', [grid.num_file, grid.gs_type, grid.system_f, grid.system_t]))
+        hd = header_of(layout_by_id(case['layout']))
+        got_h = [grid.num_file, grid.gs_type, grid.system_f, grid.system_t, grid.num_orec, grid.num_srec, grid.version, grid.major_f, grid.minor_f, grid.major_t, grid.minor_t]
+        exp_h = [len(subs), 'SECONDS', hd['system_f'], hd['system_t'], 11, 11, hd['version']] + list(hd['axes'])
+        if got_h != exp_h:
+            bad_meta.append(('header', got_h, exp_h))
         if list(grid.subgrids) != [s['name'] for s in subs]:
             bad_meta.append(('names', list(grid.subgrids)))
         for s, a in zip(subs, arrays):
@@ -249,8 +272,8 @@ def ev(case, rec):
             if g is None:
                 continue
             exp = [float(s['s_lat']), float(s['n_lat']), float(s['e_long']), float(s['w_long']), float(s['lat_inc']), float(s['long_inc']),
-                   a.shape[0] * a.shape[1], s['parent']]
-            got = [g.s_lat, g.n_lat, g.e_long, g.w_long, g.lat_inc, g.long_inc, g.gs_count, g.parent]
+                   a.shape[0] * a.shape[1], s['parent'], s['name'], '01/01/2020', '29/02/2020']
+            got = [g.s_lat, g.n_lat, g.e_long, g.w_long, g.lat_inc, g.long_inc, g.gs_count, g.parent, g.sub_name, g.created, g.updated]
             if got != exp:
                 bad_meta.append((s['name'], got, exp))
         rec.nontriv(('meta', case['layout'], method))
